@@ -7,5 +7,5 @@ CONSTANTS N = 3
  UseSenderIdx = FALSE
  InnerProofPolicy = "either"
  VCBatchPolicy = "either"
-INVARIANTS Safety
+INVARIANTS TypeOK OnlyValidEnter ValidEnters PeerAllOrNothing
 CHECK_DEADLOCK FALSE
